@@ -8,9 +8,8 @@ package gcsemu
 //@ func validateConds
 //@   property C04
 //@   ensures (result == nil) <==> ((obj == nil && cond.GenerationMatch == 0 && cond.GenerationNotMatch == 0 && cond.MetagenerationMatch == 0 && cond.MetagenerationNotMatch == 0) || (obj != nil && !cond.DoesNotExist && (cond.GenerationMatch == 0 || obj.Generation == cond.GenerationMatch) && (cond.GenerationNotMatch == 0 || obj.Generation != cond.GenerationNotMatch) && (cond.MetagenerationMatch == 0 || obj.Metageneration == cond.MetagenerationMatch) && (cond.MetagenerationNotMatch == 0 || obj.Metageneration != cond.MetagenerationNotMatch)))
-//@   ensures result != nil ==> (uf_httpCode(result) == 412 || uf_httpCode(result) == 304)
+//@   ensures result != nil ==> typeis(result, *httpError) && (as(result, *httpError).code == 412 || as(result, *httpError).code == 304)
 
 //@ func fmtErrorfCode
 //@   property C04
-//@   pure
-//@   ensures result != nil && uf_httpCode(result) == httpCode
+//@   ensures typeis(result, *httpError) && as(result, *httpError) != nil && fresh(result) && as(result, *httpError).code == httpCode
